@@ -417,6 +417,12 @@ def exec (acts : List (Nat × Meth)) (cfg : Cfg) (callee : Callee) :
         | _, _ => .error .unmodelled
   | .unsupported _, _, _ => .error .unmodelled
 
+/-- The value of a call: what the body returned; falling off its end is `None`. -/
+def finish : Except PyErr (Outcome × Env × World) → Except PyErr (Val × World)
+  | .ok (.ret v, _, w') => .ok (v, w')
+  | .ok (.normal, _, w') => .ok (.none, w')
+  | .error x => .error x
+
 /-- Calling a method of the parser with `depth` levels of nested method calls still allowed (the call graph
     `feed → _feed_*_event → parse_event_list → handler` has depth 3; a deeper chain answers `.unmodelled`).
     Entering `parse_event_list` is recorded in `World.calls`. -/
@@ -434,11 +440,7 @@ def invoke (p : Prog) (cfg : Cfg) : Nat → Callee
         | _, _ => .ok w
       match w1 with
       | .error x => .error x
-      | .ok w1 =>
-        match exec p.actions cfg (invoke p cfg depth) md.body (Env.ofArgs args) w1 with
-        | .ok (.ret v, _, w') => .ok (v, w')
-        | .ok (.normal, _, w') => .ok (.none, w')
-        | .error x => .error x
+      | .ok w1 => finish (exec p.actions cfg (invoke p cfg depth) md.body (Env.ofArgs args) w1)
 
 /-- `parser.feed(event)` -/
 def feed (p : Prog) (cfg : Cfg) (w : World) (e : Kevent) : Except PyErr (Val × World) :=
